@@ -21,6 +21,10 @@ Clauses(e) ==
       <<"axis-proportional-to-sampling", e.raised \/ Small(e.axis_dev, Tol)>>,
       <<"df-is-sampling-over-NFFT", e.raised \/ Small(e.df_dev, Tol)>>,
       <<"lengths", e.raised \/ e.len_ok>>,
+      \* the sampling rate re-assigned on a live object (to a clearly different rate, and to one 3e-6 away: a nearby value
+      \* is another value): the object then reports what a fresh object with the new rate reports (1e-7; the two
+      \* rates differ by 3e-6)
+      <<"live-sampling-change-equals-fresh", e.raised \/ ~Has(e, "live_dev") \/ Small(e.live_dev, 100)>>,
       <<"sampling-rule", e.raised \/
             IF e.family = "divides" THEN Small(e.samp_divides_dev, Tol)
             ELSE IF e.family = "unchanged" THEN Small(e.samp_unchanged_dev, Tol)
